@@ -36,6 +36,103 @@ pub fn eval(line: &str) -> String {
     }
     let at = |us: u64| epoch + Duration::from_micros(us);
     match toks[0] {
+        // name.eq <t|s> <hexA> <hexB>: do two accepted names compare (and hash) as the same map key?
+        "name.eq" => {
+            use std::collections::hash_map::DefaultHasher;
+            use std::hash::{Hash, Hasher};
+            fn h<T: Hash>(t: &T) -> u64 {
+                let mut s = DefaultHasher::new();
+                t.hash(&mut s);
+                s.finish()
+            }
+            match (unhex_str(toks[2]), unhex_str(toks[3])) {
+                (Some(a), Some(b)) => {
+                    if toks[1] == "t" {
+                        match (TopicName::try_parse(&a), TopicName::try_parse(&b)) {
+                            (Some(x), Some(y)) => format!("{} {}", if x == y { "eq" } else { "ne" }, if x == y && h(&x) != h(&y) { "hash-differs" } else { "-" }),
+                            _ => "rejected".into(),
+                        }
+                    } else {
+                        match (SubscriptionName::try_parse(&a), SubscriptionName::try_parse(&b)) {
+                            (Some(x), Some(y)) => format!("{} {}", if x == y { "eq" } else { "ne" }, if x == y && h(&x) != h(&y) { "hash-differs" } else { "-" }),
+                            _ => "rejected".into(),
+                        }
+                    }
+                }
+                _ => "skip".into(),
+            }
+        }
+        // flow.race <rounds>: a waiter that is about to park and a capacity-freeing `dec` on another
+        // THREAD, the offset between the two swept over the rounds: once the `dec` has finished the
+        // waiter must be ready or its waker must have fired (a support for the failing-input search:
+        // the window has no await point, so no single-threaded schedule reaches it).
+        "flow.race" => {
+            use std::future::Future;
+            use std::sync::atomic::{AtomicBool, AtomicUsize, Ordering};
+            use std::sync::Arc;
+            use std::task::{Context, Poll, Wake, Waker};
+            struct Flag(AtomicBool);
+            impl Wake for Flag {
+                fn wake(self: Arc<Self>) {
+                    self.0.store(true, Ordering::SeqCst);
+                }
+            }
+            let rounds: usize = toks[1].parse().unwrap_or(1000);
+            let fc = Arc::new(flow_control::create(16, 16));
+            let go = Arc::new(AtomicUsize::new(0));
+            let done = Arc::new(AtomicUsize::new(0));
+            let (fc2, go2, done2) = (Arc::clone(&fc), Arc::clone(&go), Arc::clone(&done));
+            // one persistent second thread, synchronised by spinning
+            let t = std::thread::spawn(move || {
+                let mut r = 0usize;
+                loop {
+                    let mut g = go2.load(Ordering::Acquire);
+                    while g != r + 1 && g != usize::MAX {
+                        std::hint::spin_loop();
+                        g = go2.load(Ordering::Acquire);
+                    }
+                    if g == usize::MAX {
+                        return;
+                    }
+                    for _ in 0..(r % 64) {
+                        std::hint::spin_loop();
+                    }
+                    fc2.dec(16, 1);
+                    done2.store(r + 1, Ordering::Release);
+                    r += 1;
+                }
+            });
+            let mut lost = None;
+            for r in 0..rounds {
+                fc.inc(16, 1);
+                let flag = Arc::new(Flag(AtomicBool::new(false)));
+                let waker = Waker::from(Arc::clone(&flag));
+                let mut cx = Context::from_waker(&waker);
+                let fc3 = Arc::clone(&fc);
+                let mut fut = Box::pin(async move { fc3.wait_for_available_space().await });
+                go.store(r + 1, Ordering::Release);
+                for _ in 0..((r / 64) % 48) {
+                    std::hint::spin_loop();
+                }
+                let first = fut.as_mut().poll(&mut cx);
+                while done.load(Ordering::Acquire) != r + 1 {
+                    std::hint::spin_loop();
+                }
+                // the dec has finished: ready at the first poll, or woken (a later poll that merely finds
+                // space would hide a lost wake-up)
+                let woken_or_ready = matches!(first, Poll::Ready(())) || flag.0.load(Ordering::SeqCst);
+                if !woken_or_ready {
+                    lost = Some(r);
+                    break;
+                }
+            }
+            go.store(usize::MAX, Ordering::Release);
+            let _ = t.join();
+            match lost {
+                None => "ok".into(),
+                Some(r) => format!("LOST-WAKEUP round={}", r),
+            }
+        }
         "topic.parse" => match unhex_str(toks[1]) {
             None => "skip".into(),
             Some(s) => name_out(TopicName::try_parse(&s).map(|n| {
